@@ -474,6 +474,19 @@ func processField(ctx context.Context, name string, schema *Schema) (parameter *
 	if err := inputTypeValidForTypeComponent(ctx, schema, tc); err != nil {
 		return nil, i18n.WrapError(ctx, err, signermsgs.MsgInvalidFFIDetailsSchema, name)
 	}
+	// ... including the element descriptions of an array: one "items" schema for each dimension of
+	// the Ethereum type, each of a JSON type that agrees with the type of the elements at that level
+	items, child := schema.Items, tc
+	for child.ComponentType() == abi.FixedArrayComponent || child.ComponentType() == abi.DynamicArrayComponent {
+		child = child.ArrayChild()
+		if items == nil {
+			return nil, i18n.NewError(ctx, signermsgs.MsgInvalidFFIDetailsSchema, name)
+		}
+		if err := inputTypeValidForTypeComponent(ctx, items, child); err != nil {
+			return nil, i18n.WrapError(ctx, err, signermsgs.MsgInvalidFFIDetailsSchema, name)
+		}
+		items = items.Items
+	}
 	return parameter, nil
 }
 
